@@ -61,7 +61,7 @@ theorem listener_ongoing {cfg : Cfg} {M : List Nat} {adr : Nat → Nat} {n : Nat
     {st : NetStation} (hL : LOk cfg M adr b H Lo j st) (hR : RingCfg M adr n) (hlog : LogOk cfg M adr n b)
     (hr : 0 < cfg.rate) (hj : j < n) (now : Int) (hsn : b.seen.getD j 0 < now)
     (hle : ∀ l, st.s.lastBusActivity = some l → now ≤ l) : ListenOut cfg M adr b H Lo j st now := by
-  obtain ⟨hok, dn, rs, idle, l, h1, h2, h3, h4, h5, h0, h6, h7, h8, h9, h10⟩ := hL
+  obtain ⟨hok, dn, rs, idle, l, h1, h2, h3, h4, h5, h0, h6, h7, h8, h9, hF, h10⟩ := hL
   have hnl := hle l h7
   have hc0 := cfg.ce_pos hr 0
   rcases h8 with h8 | ⟨h8, h8'⟩
@@ -95,7 +95,7 @@ theorem listener_ongoing {cfg : Cfg} {M : List Nat} {adr : Nat → Nat} {n : Nat
   refine ⟨hok, dn, rs, idle, l, h1, ?_⟩
   rw [getD_set_self b j now hjl]
   refine ⟨fun o ho => (h2 o ho).imp id (fun h => by omega), h3, by rw [ha0, h4, ha1], by rw [ha0]; rw [ha1] at h5; exact h5,
-    h0, ?_, h7, .inr ⟨h8, h8'⟩, h9, ?_⟩
+    h0, ?_, h7, .inr ⟨h8, h8'⟩, h9, hF, ?_⟩
   · intro t rest hrs
     rw [hz t (by rw [hrs]; exact List.mem_cons_self ..)]
     have := h6 t rest hrs
@@ -142,6 +142,7 @@ theorem listener_quiet {cfg : Cfg} {M : List Nat} {adr : Nat → Nat} {n : Nat} 
     (h4 : st.rx = arrived cfg rs (b.seen.getD j 0)) (h5 : st.s.pendingBytes ≤ (arrived cfg rs (b.seen.getD j 0)).length)
     (h0 : ∀ o ∈ b.txs, o.sender = j → cEnd cfg o ≤ l + 1)
     (h7 : st.s.lastBusActivity = some l) (h9 : ∀ t ∈ rs.dropLast, ∀ a, t.bytes ≠ tokenBytes (adr j) a)
+    (hF : (∃ t a, b.txs.getLast? = some t ∧ t.bytes = tokenBytes (adr j) a) → rs ≠ [])
     (h10 : if idle = true then
       (∃ np coll, st.s.st = .activeIdle none np coll) ∧
         nextArr cfg H rs (b.seen.getD j 0) < l + (st.s.p.tokenLostTimeout : Nat)
@@ -228,7 +229,7 @@ theorem listener_quiet {cfg : Cfg} {M : List Nat} {adr : Nat → Nat} {n : Nat} 
   rw [getD_set_self b j now hjl]
   unfold upSt
   simp only [hcs, hcr]
-  refine ⟨fun o ho => (h2 o ho).imp id (fun h => by omega), h3, trivial, ?_, ?_, fun t rest hrs => (hhead t rest hrs).1, ?_, ?_, h9, ?_⟩
+  refine ⟨fun o ho => (h2 o ho).imp id (fun h => by omega), h3, trivial, ?_, ?_, fun t rest hrs => (hhead t rest hrs).1, ?_, ?_, h9, hF, ?_⟩
   · unfold checkBusActivity; split
     · exact Nat.le_refl _
     · omega
@@ -343,9 +344,9 @@ theorem listener_step {cfg : Cfg} {M : List Nat} {adr : Nat → Nat} {n : Nat} {
     (hH : ∀ t, b.txs.getLast? = some t → H ≤ cEnd cfg t + (cfg.gmax : Nat)) :
     ListenOut cfg M adr b H Lo j st now := by
   have hr := hok'.rate
-  obtain ⟨hokS, dn, rs, idle, l, h1, h2, h3, h4, h5, h0, h6, h7, h8, h9, h10⟩ := hL
+  obtain ⟨hokS, dn, rs, idle, l, h1, h2, h3, h4, h5, h0, h6, h7, h8, h9, hF, h10⟩ := hL
   by_cases hl : now ≤ l
-  · exact listener_ongoing ⟨hokS, dn, rs, idle, l, h1, h2, h3, h4, h5, h0, h6, h7, h8, h9, h10⟩ hR hlog hr hj now hsn
+  · exact listener_ongoing ⟨hokS, dn, rs, idle, l, h1, h2, h3, h4, h5, h0, h6, h7, h8, h9, hF, h10⟩ hR hlog hr hj now hsn
       (fun l' hl' => by rw [h7] at hl'; cases hl'; exact hl)
   have hl' : l < now := by omega
   obtain ⟨inc, hd, hcat⟩ := listener_deliver hR hlog hr j now dn rs h1 h2 h3 (Int.le_of_lt hsn)
@@ -362,7 +363,7 @@ theorem listener_step {cfg : Cfg} {M : List Nat} {adr : Nat → Nat} {n : Nat} {
     simp only [List.drop_zero] at hb' hhead
     subst hdn
     rw [hb'] at hrec
-    exact listener_quiet hok' hR hlog hj now hokS dn rs idle l h1 h2 h3 h4 h5 h0 h7 h9 h10 hsn hl' hnowH hstart inc hd hcat ret
+    exact listener_quiet hok' hR hlog hj now hokS dn rs idle l h1 h2 h3 h4 h5 h0 h7 h9 hF h10 hsn hl' hnowH hstart inc hd hcat ret
       hrec (fun t rest hrs => ⟨(hhead t rest hrs).1, (hhead t rest hrs).2.2⟩)
   -- at least one complete telegram: new bytes have arrived
   have hmar := hok'.margin
@@ -501,7 +502,7 @@ theorem listener_step {cfg : Cfg} {M : List Nat} {adr : Nat → Nat} {n : Nat} {
     simp only
     refine ⟨by rw [List.append_assoc, List.take_append_drop]; exact h1, ?_, fun t ht => h3 t (List.mem_of_mem_drop ht),
       by rw [hh.rx, c2]; exact hb', by rw [hp1]; exact Nat.zero_le _, ?_, fun t rest hrs => (hhead t rest hrs).1, hl1,
-      .inl (Int.le_refl _), ?_, ?_⟩
+      .inl (Int.le_refl _), ?_, ?_, ?_⟩
     · intro o ho
       rcases List.mem_append.1 ho with ho | ho
       · exact (h2 o ho).imp id (fun h => by omega)
@@ -517,6 +518,15 @@ theorem listener_step {cfg : Cfg} {M : List Nat} {adr : Nat → Nat} {n : Nat} {
       · have hdl' : (rs.take k ++ rs.drop k).dropLast = rs.take k ++ (rs.drop k).dropLast := dropLast_of_append _ _ hne
         rw [← hsplit] at hdl'
         exact h9 t (by rw [hdl']; exact List.mem_append_right _ ht) a
+    · intro hex hdr
+      obtain ⟨t, a, hlt, hbt⟩ := hex
+      have hrsne := hF ⟨t, a, hlt, hbt⟩
+      apply hacc
+      refine ⟨hdr, t, a, ?_, hbt⟩
+      rw [h1, List.getLast?_append] at hlt
+      cases hg : rs.getLast? with
+      | none => exact absurd (List.getLast?_eq_none_iff.1 hg) hrsne
+      | some t2 => rw [hg] at hlt; simpa using hlt
     · simp only [if_true]
       refine ⟨hh.st, ?_⟩
       rw [hh.p, c5]
